@@ -175,17 +175,18 @@ impl Iterator for StyledScanlines {
                 let fill_start = scanline
                     .x
                     .clone()
-                    .find(|x| self.fill_area.contains(Point::new(*x, scanline.y)))
-                    .unwrap_or(scanline.x.start);
+                    .find(|x| self.fill_area.contains(Point::new(*x, scanline.y)));
 
                 let fill_end = scanline
                     .x
                     .clone()
                     .rfind(|x| self.fill_area.contains(Point::new(*x, scanline.y)))
-                    .map(|x| x + 1)
-                    .unwrap_or(scanline.x.end);
+                    .map(|x| x + 1);
 
-                StyledScanline::new(scanline.y, scanline.x, Some(fill_start..fill_end))
+                // Rows without any pixel inside the fill area contain no fill.
+                let fill_range = fill_start.zip(fill_end).map(|(start, end)| start..end);
+
+                StyledScanline::new(scanline.y, scanline.x, fill_range)
             } else {
                 StyledScanline::new(scanline.y, scanline.x, None)
             }
